@@ -1,4 +1,5 @@
 import GoPlugin.Lemmas.Sync
+import GoPlugin.Lemmas.ReplyChan
 /-
 C20 — Concurrent use of clients and brokers is free of data races and panics.
 
@@ -16,6 +17,13 @@ hypothesis is needed (unguarded pair races; close outside Once closes twice;
 `nextId++; return nextId` returns duplicates; the `< W` bound is needed).
 The second half lifts the decision procedure `checkTable` run on the extracted
 access table to the lockset premise of programs made of the table's rows.
+
+The last part is about a channel the access table does not see — the per-call REPLY
+CHANNEL of the broker streamers' `Send` (`Model/ReplyChan.lean`): for any number of
+`Send`s interleaved in any way with the stream goroutine and with `Close`, no send
+hits a closed channel (`no_send_on_closed_channel`), no reply channel is closed twice
+(`reply_channel_closed_once`, every tree) and the stream goroutine is never stuck on
+a reply (`reply_always_deliverable`); witnesses for both facts.
 -/
 namespace GoPlugin.Props.C20
 open GoPlugin Sync
@@ -267,5 +275,81 @@ example : lockProtected [⟨0, 1, true, [7], none, false, 1⟩, ⟨1, 1, false, 
 
 /-- and the check does reject the one-sided lock -/
 example : lockProtected [⟨0, 1, true, [], none, false, 1⟩, ⟨1, 1, false, [7], none, false, 1⟩] 1 = false := by decide
+
+/-! ### the reply channel of the broker streamers' `Send` -/
+
+section ReplyChan
+open ReplyChan
+
+/-- **No send on a closed channel**, for any number of `Send` calls interleaved in any way with the
+stream goroutine and with `Close` of the streamer (shutdown racing in-flight `Accept`s / knocks):
+if `Send` returns — and thereby closes its reply channel — only through the receive of the reply
+once the request is handed over, and the stream goroutine sends one reply per request, then no
+reachable state has panicked. -/
+theorem no_send_on_closed_channel (P : ReplyChan.Params) (hG : P.Good) (s : ReplyChan.State)
+    (h : ReplyChan.Reachable P s) : s.panicked = false :=
+  (inv_reachable P hG s h).noPanic
+
+/-- … and the step that would panic is never even enabled: whenever the stream goroutine holds a
+request, that request's reply channel is open and its `Send` is at the receive — the reply can be
+delivered at once (the stream goroutine is never stuck on `se.ch <- err`; no goroutine leak). -/
+theorem reply_always_deliverable (P : ReplyChan.Params) (hG : P.Good) (s : ReplyChan.State)
+    (h : ReplyChan.Reachable P s) (i : Nat) (hw : s.worker = .holding i) :
+    s.closed i = false ∧ s.pc i = .waiting ∧ ∃ s', ReplyChan.step P s .reply = some s' ∧ s'.pc i = .returned := by
+  have hi := inv_reachable P hG s h
+  have hpc := hi.holding i hw
+  have hcl : s.closed i = false := by
+    cases hc : s.closed i with
+    | false => rfl
+    | true => have := hi.closedRet i hc; rw [hpc] at this; cases this
+  refine ⟨hcl, hpc, ?_⟩
+  simp [ReplyChan.step, hw, sendReply, hcl, hpc, returnSend, ReplyChan.upd]
+
+/-- **No reply channel is closed twice** — in EVERY tree (no fact needed: each `Send` closes its
+own channel, when it returns, and returns once). -/
+theorem reply_channel_closed_once (P : ReplyChan.Params) (s : ReplyChan.State) (h : ReplyChan.Reachable P s)
+    (i : Nat) : s.closes i ≤ 1 :=
+  (cinv_reachable P s h).le i
+
+/-- non-vacuity: three `Send`s around a `Close` on the current code — one served, one served while
+`quit` is already closed, one turned away by the `quit` arm; all returned, every channel closed
+once, nothing panicked, the stream goroutine gone. -/
+example : ReplyChan.goodParams.Good ∧
+    ∃ s, ReplyChan.Reachable ReplyChan.goodParams s ∧ s.panicked = false ∧
+      s.pc 0 = .returned ∧ s.pc 1 = .returned ∧ s.pc 2 = .returned ∧
+      s.closes 0 = 1 ∧ s.closes 1 = 1 ∧ s.closes 2 = 1 ∧ s.worker = .exited :=
+  ⟨by decide,
+   (ReplyChan.after ReplyChan.goodParams
+      [.call 0, .call 1, .take 0, .call 2, .reply, .take 1, .close, .quitArm 2, .reply, .workerQuit]).get (by decide),
+   ⟨_, Option.some_get _ |>.symm⟩, by decide, by decide, by decide, by decide, by decide, by decide, by decide, by decide⟩
+
+/-- `Send` with `select { case err := <-ch: …; case <-s.quit: return … }` after the hand-over and
+`defer close(ch)` kept -/
+def earlyReturnParams : ReplyChan.Params := ⟨false, true, true⟩
+
+/-- **Witness: `sendWaitsForReply` is needed.**  One `Send`, `Close` while the stream goroutine is
+inside `stream.Send`: `Send` takes the `quit` arm and closes its channel, then the stream goroutine's
+`se.ch <- err` is a send on a closed channel — `panic: send on closed channel` in a library goroutine. -/
+theorem early_return_send_on_closed_channel :
+    ∃ s, ReplyChan.Reachable earlyReturnParams s ∧ s.panicked = true :=
+  ⟨(ReplyChan.after earlyReturnParams [.call 0, .take 0, .close, .giveUp 0, .reply]).get (by decide),
+   ⟨_, Option.some_get _ |>.symm⟩, by decide⟩
+
+/-- The same early return without the `defer close(ch)`: no panic, but the stream goroutine is blocked
+for ever on a channel nobody receives from (and every later `Send` can only be turned away). -/
+theorem early_return_without_close_blocks_stream_goroutine :
+    ∃ s, ReplyChan.Reachable ⟨false, false, true⟩ s ∧ s.worker = .holding 0 ∧ s.pc 0 = .returned ∧
+      ReplyChan.step ⟨false, false, true⟩ s .reply = none ∧ ReplyChan.step ⟨false, false, true⟩ s .workerQuit = none :=
+  ⟨(ReplyChan.after ⟨false, false, true⟩ [.call 0, .take 0, .close, .giveUp 0]).get (by decide),
+   ⟨_, Option.some_get _ |>.symm⟩, by decide, by decide, by decide, by decide⟩
+
+/-- **Witness: `workerRepliesOnce` is needed.**  A stream goroutine that sends on `se.ch` a second time
+finds the channel closed by the `Send` that took the first reply. -/
+theorem double_reply_send_on_closed_channel :
+    ∃ s, ReplyChan.Reachable ⟨true, true, false⟩ s ∧ s.panicked = true :=
+  ⟨(ReplyChan.after ⟨true, true, false⟩ [.call 0, .take 0, .reply, .reply]).get (by decide),
+   ⟨_, Option.some_get _ |>.symm⟩, by decide⟩
+
+end ReplyChan
 
 end GoPlugin.Props.C20
